@@ -94,6 +94,64 @@ def address_write(chk: Check, repo: Repo) -> None:
         chk.ob("address-write-cell", fi.site(), got == want, f"address present={found} programming-mode devices={pgm} answers at new address={answers}: {sorted(map(str, got))}; reference {sorted(map(str, want))}", key=f"write|{found}|{pgm}|{answers}" + ("" if got == want else f"|{sorted(map(str, got))}"))
 
 
+def address_check(chk: Check, repo: Repo) -> None:
+    """nm_individual_address_check reports 'occupied' when the device answers *or refuses* — also when the refusal
+    only surfaces while the connection is torn down."""
+    fi = repo.func(f"{NET}.nm_individual_address_check", "nm_individual_address_check")
+    chk.unit(fi)
+    cfg = CFG(fi.node)
+    exc = ExcTable(repo)
+    for connect, probe, teardown in product(("ok", "refused"), ("answers", "timeout", "refused"), ("ok", "refused")):
+        if connect == "refused" and (probe != "answers" or teardown != "ok"):
+            continue
+        def cm(c, env):
+            n = call_name(c)
+            if n.endswith("management.connection") or n.endswith("management.connect"):
+                return [Outcome("CONNECT", Obj("P2PConnection", "conn"))] if connect == "ok" else [Outcome("CONNECT:refused", Raise("ManagementConnectionRefused"))]
+            if n == "nm_individual_address_check_conn":
+                return {"answers": [Outcome("PROBE", True)], "timeout": [Outcome("PROBE", False)], "refused": [Outcome("PROBE:refused", Raise("ManagementConnectionRefused"))]}[probe]
+            if n.endswith("management.disconnect"):
+                return [Outcome("TEARDOWN", None)] if teardown == "ok" else [Outcome("TEARDOWN:refused", Raise("ManagementConnectionRefused"))]
+            if n == "IndividualAddress":
+                return [Outcome(None, Obj("IndividualAddress", "ia"))]
+            return None
+        am = AbsMachine(cfg, exc, cm)
+        base = am.step
+        def step(node, env):
+            # leaving `async with management.connection(...)` normally runs the context manager's teardown
+            if node.kind == "with_exit" and any(call_name(c).endswith("management.connection") for it in node.ast.items for c in calls(it.context_expr)):
+                e2 = dict(env)
+                if teardown == "refused":
+                    e2["trace"] = tuple(env.get("trace", ())) + ("TEARDOWN:refused",); e2["#raised"] = "ManagementConnectionRefused"
+                    return [(f"goto:{am._exc_target(cfg.nodes[[n_.id for n_ in cfg.nodes if n_.kind == 'with' and n_.ast is node.ast][0]], 'ManagementConnectionRefused')}", e2)]
+                e2["trace"] = tuple(env.get("trace", ())) + ("TEARDOWN",)
+                return [("next", e2)]
+            return base(node, env)
+        # `return` inside the with-block: the CFG routes it through no with_exit node, so model the teardown at the return
+        def step2(node, env):
+            a = node.ast
+            if node.kind == "stmt" and isinstance(a, ast.Return) and any(call_name(c).endswith("management.connection") for w in node.withs for it in w.items for c in calls(it.context_expr)):
+                res = base(node, env)
+                out = []
+                for lab, e2 in res or []:
+                    if lab == "return" and teardown == "refused":
+                        e3 = dict(e2); e3["trace"] = tuple(e3.get("trace", ())) + ("TEARDOWN:refused",); e3["#raised"] = "ManagementConnectionRefused"; e3.pop("#ret", None)
+                        wnode = [n_ for n_ in cfg.nodes if n_.kind == "with" and n_.ast is node.withs[-1]][0]
+                        out.append((f"goto:{am._exc_target(wnode, 'ManagementConnectionRefused')}", e3))
+                    elif lab == "return":
+                        e3 = dict(e2); e3["trace"] = tuple(e3.get("trace", ())) + ("TEARDOWN",)
+                        out.append((lab, e3))
+                    else:
+                        out.append((lab, e2))
+                return out
+            return step(node, env)
+        paths = Explorer(cfg, repo, step2).run(cfg.entry, [], {})
+        got = {(p.env.get("#ret") if p.end_kind == "exit" else f"raise {p.env.get('#raised')}") for p in paths}
+        occupied = connect == "refused" or probe in ("answers", "refused") or teardown == "refused"
+        want = {occupied}
+        chk.ob("address-check-cell", fi.site(), got == want, f"connect={connect} probe={probe} teardown={teardown}: returns {sorted(map(str, got))}; reference occupied={occupied} (a refusal at any stage means the address is in use)", key=f"check|{connect}|{probe}|{teardown}" + ("" if got == want else f"|{sorted(map(str, got))}"))
+
+
 def address_read(chk: Check, repo: Repo) -> None:
     fi = repo.func(f"{NET}.nm_individual_address_read", "nm_individual_address_read")
     chk.unit(fi)
@@ -228,6 +286,7 @@ def authorize(chk: Check, repo: Repo) -> None:
 
 def run(chk: Check, repo: Repo) -> None:
     address_write(chk, repo)
+    address_check(chk, repo)
     address_read(chk, repo)
     serial(chk, repo)
     authorize(chk, repo)
